@@ -587,9 +587,6 @@ func c13Robust(r *verifkit.Run) {
 			tj := time.Now()
 			c13JudgeBatch(r, &res, alog, &mu, seenAnomalyKeys)
 			r.T.Logf("robust batch %d: generate %.1fs drive %.1fs judge %.1fs", bi, td.Sub(tg).Seconds(), tj.Sub(td).Seconds(), time.Since(tj).Seconds())
-			if os.Getenv("VERIF_C13_KEEP") != "" {
-				os.Rename(corpus, "/tmp/c13x/"+tag+".in")
-			}
 			os.Remove(corpus)
 			os.Remove(outp)
 			os.Remove(alog)
